@@ -16,8 +16,9 @@ deterministic small scope.  The oracles come from the property statements:
        implies, sets, line number, help) and gen.snapshot() of a fresh Kconfig(...) under parser 1 and parser 2.
   C19  spec function over the directory layout the driver itself created: nearest enclosing project root (CMakeLists.txt
        with project( ), global scope = IDF root rename file + components/** + explicitly passed + --includes.
-  C20  brute force over all assignments to the user-settable bools / choices of the small tree with the real Kconfig
-       evaluator (Symbol.visibility, Kconfig.eval_string, expr_value).
+  C20  brute force over all assignments to the user-settable options / choices of the small tree with the real Kconfig
+       evaluator (Symbol.visibility, Kconfig.eval_string, expr_value): reachable => documented, shown condition ==
+       original condition in every reachable configuration, every :ref: has its anchor in the same text.
 
 `python -m rtc.drv_tools <prop> [quick|thorough] [seed]` prints the result dict as JSON.
 """
@@ -2842,6 +2843,8 @@ _C20_OPNAME = {K.EQUAL: "=", K.UNEQUAL: "!=", K.LESS: "<", K.LESS_EQUAL: "<=", K
 class _C20Diag:
     def __init__(self, kconf, vis, configs, D):
         self.kconf, self.vis, self.configs, self.D = kconf, vis, configs, D
+        self._memo = {}
+        self._kind_memo = {}
         self._set_targets = set()
         for s in kconf.unique_defined_syms:
             for tgt, _v, _c in list(s.sets) + list(getattr(s, "weak_sets", ())):
@@ -2864,6 +2867,11 @@ class _C20Diag:
     def kind(self, sym):
         if type(sym) is not K.Symbol:
             return "expr"
+        if sym not in self._kind_memo:
+            self._kind_memo[sym] = self._kind(sym)
+        return self._kind_memo[sym]
+
+    def _kind(self, sym):
         if sym.is_constant:
             return "literal"
         if not sym.nodes:
@@ -2897,6 +2905,12 @@ class _C20Diag:
 
     def diagnose(self, e):
         """Class fragment naming the innermost sub-expression whose simplification changes the truth value; None if e is fine."""
+        key = K.expr_str(e)
+        if key not in self._memo:
+            self._memo[key] = self._diagnose(e)
+        return self._memo[key]
+
+    def _diagnose(self, e):
         self.configs.reset()
         m = self.D._minimize_expr(e, self.vis, self.kconf)
         if type(e) is tuple:
